@@ -99,6 +99,7 @@ def parseField2 (a : Attempt) (k v : String) : Option Attempt :=
   | "hd" => some { a with hdrOps := a.hdrOps ++ [.del v] }
   | "u" => some { a with setUrl := some v }
   | "s" => v.toNat?.map fun n => { a with status := some n }
+  | "ls" => v.toNat?.map fun n => { a with lateStatus := some n }
   -- w / wc / wn / ws / wf: how the handler writes (Write, io.Copy, io.CopyN, io.WriteString, fmt.Fprintf); a write of n bytes either way
   | "w" | "wc" | "wn" | "ws" | "wf" =>
     match v.splitOn "." with
@@ -113,6 +114,8 @@ def parseField (a : Attempt) (fld : String) : Option Attempt :=
   | ["-"] => some a
   | ["hj"] => some { a with hijack := true }
   | ["fl"] => some { a with flush := true }
+  | ["pn"] => some { a with panic := true }
+  | ["lh", k, v] => some { a with lateHdr := a.lateHdr ++ [(k, v)] }
   -- r / rc / rn / rp: how the handler reads (ReadAll, io.Copy, io.CopyN, small Reads); a read of n bytes either way
   | [r, n] =>
     if (r == "r" || r == "rc" || r == "rn" || r == "rp") && n == "all" then some { a with read := none } else     if r == "r" || r == "rc" || r == "rn" || r == "rp" then n.toNat?.map fun n => { a with read := some n }
@@ -145,7 +148,7 @@ def showResult (r : Result) : String :=
     | none => "none"
     | some c => toString c ++ "|" ++ showHeader r.resp.sentHeader ++ "|" ++ showBytes r.resp.body
   "inv=" ++ toString r.invocations ++ String.join (r.views.map showView) ++ " w=" ++ w
-    ++ " hij=" ++ (if r.hijacked then "1" else "0") ++ " cl=ok left=" ++ toString (r.created - r.removed)
+    ++ " hij=" ++ (if r.hijacked then "1" else "0") ++ (if r.panicked then " cl=aborted left=" else " cl=ok left=") ++ toString (r.created - r.removed)
     ++ (if r.removed > r.created then " over-removed" else "") ++ (if r.outOfFuel then " fuel" else "")
 
 def step (st : St) (f : List String) : St × String :=
